@@ -191,9 +191,14 @@ func (vc *VC) evalCallWith(st *State, call *ast.CallExpr, preRecv *Term, preArgs
 		}
 		// unknown callee: the most conservative abstraction (everything mutable may change, results arbitrary).
 		// Obligations of this function that then fail are reported as undecided unless a counterexample replays.
-		vc.abstracted = append(vc.abstracted, callee.FullName())
-		vc.note("callee without contract abstracted by havoc: " + callee.FullName() + " at " + vc.pos(call))
-		vc.havocAll(st)
+		if vc.looksPure(callee, isig, recv) {
+			// external function over plain values (strings, numbers, slices of them): no effect on the heap we model
+			vc.note("callee without contract treated as a pure function of plain values: " + callee.FullName())
+		} else {
+			vc.abstracted = append(vc.abstracted, callee.FullName())
+			vc.note("callee without contract abstracted by havoc: " + callee.FullName() + " at " + vc.pos(call))
+			vc.havocAll(st)
+		}
 		var rets []Term
 		for i := 0; i < isig.Results().Len(); i++ {
 			rt := vc.ts.apply(isig.Results().At(i).Type())
@@ -1155,4 +1160,45 @@ func (e *SpecEnv) lockTarget(x ast.Expr) (string, string) {
 	hn := vc.lockHeapName(vc.ts.apply(pt.Elem()), se.Sel.Name)
 	vc.heapGet(e.st, hn, "(Array Int Int)", nil)
 	return hn, owner.S
+}
+
+// looksPure: an external function whose receiver/parameters are plain values cannot touch the modelled heap.
+func (vc *VC) looksPure(callee *types.Func, sig *types.Signature, recv *Term) bool {
+	if callee.Pkg() == nil {
+		return false
+	}
+	if _, isRepo := vc.p.pkgs[callee.Pkg().Path()]; isRepo {
+		return false
+	}
+	var plain func(t types.Type, d int) bool
+	plain = func(t types.Type, d int) bool {
+		if d > 3 {
+			return false
+		}
+		switch tt := under(t).(type) {
+		case *types.Basic:
+			return tt.Kind() != types.UnsafePointer
+		case *types.Slice:
+			return plain(tt.Elem(), d+1)
+		case *types.Array:
+			return plain(tt.Elem(), d+1)
+		case *types.Struct:
+			for i := 0; i < tt.NumFields(); i++ {
+				if !plain(tt.Field(i).Type(), d+1) {
+					return false
+				}
+			}
+			return true
+		}
+		return false
+	}
+	if recv != nil && !plain(recv.T, 0) {
+		return false
+	}
+	for i := 0; i < sig.Params().Len(); i++ {
+		if !plain(vc.ts.apply(sig.Params().At(i).Type()), 0) {
+			return false
+		}
+	}
+	return true
 }
